@@ -96,12 +96,15 @@ def parse_match(text):
         )
 
     restrictions = []
+    globbed_slot = False
     if "::" in text:
         text, repo_id = text.rsplit("::", 1)
         restrictions.append(restricts.RepositoryDep(repo_id))
     if ":" in text:
         text, slot = text.rsplit(":", 1)
         slot, _sep, subslot = slot.partition("/")
+        # a lone ':*' is valid atom syntax, any other glob in here isn't
+        globbed_slot = "*" in slot + subslot and (slot != "*" or bool(subslot))
         if slot:
             if "*" in slot:
                 if r := convert_glob(slot):
@@ -152,10 +155,13 @@ def parse_match(text):
         try:
             return atom.atom(orig_text)
         except errors.MalformedAtom as e:
-            if "*" not in text:
+            if "*" not in text and not globbed_slot:
                 raise ParseError(str(e)) from e
-            # support globbed targets with version restrictions
-            return packages.AndRestriction(*parse_globbed_version(text, orig_text))
+            if text[0] in atom.valid_ops:
+                # support globbed targets with version restrictions
+                restrictions.extend(parse_globbed_version(text, orig_text))
+                return packages.AndRestriction(*restrictions)
+            # plain category/package with a globbed slot or subslot; handled below
 
     r = list(map(convert_glob, tsplit))
     if not r[0] and not r[1]:
